@@ -152,3 +152,11 @@ CHECKS["C07"] = dict(
     design_ref="DESIGN.md section 3 C07, section 2.5",
     note="Tier A models storage latency as task duration. Tier B samples OS interleavings only through injected latency (threads executor; the processes executor shares async_map_dag). Thread-pool internals are not explored.",
 )
+
+CHECKS["C20"] = dict(
+    level="exploration",
+    technique="property-based testing across a serialization boundary: a sender (same process with reset name counters, or a fresh interpreter) builds a generated program and cloudpickles the lazy outputs; a receiver with its own counters unpickles, computes them alone and combined with locally built arrays in drawn roles; NumPy oracle",
+    text="Cases vary the program, the sender's and receiver's counter positions, the number of local arrays, the combination (either operand of add/subtract/where/stack/concat, two pickled arrays with shared ancestry) and optimization; sampled cases use a real child interpreter. The pickled arrays alone and every combination must equal NumPy, and the result must plan, rechunk and store like any other array. Overlapping name ranges are the recorded known finding (corpus probe in both modes); the sampled campaign keeps the ranges disjoint so the search continues behind it.",
+    design_ref="DESIGN.md section 3 C20",
+    note="Emulation resets cubed's four module-level name counters; the work directory is emptied and the blob re-deserialized between the stand-alone and the combined computation so stale intermediates cannot mask a mis-wiring. Same cubed version on both sides.",
+)
